@@ -14,11 +14,12 @@ from .common import Infra, VERIF
 class Ctx:
     """what a property module talks to while it runs"""
 
-    def __init__(self, pid, tier, seed, model_available):
+    def __init__(self, pid, tier, seed, model_available, model_partial=False):
         self.pid = pid
         self.tier = tier
         self.seed = seed
         self.model_available = model_available
+        self.model_partial = model_partial     # the translator could not translate everything
         self.t0 = time.time()
         self.evaluations = 0
         self.nontrivial = set()
@@ -73,7 +74,7 @@ class Ctx:
                 if 'OUTSIDE-MODEL' in a and os.environ.get('VERIF_ALLOW_OUTSIDE'):
                     self.count('outside-model-skipped')
                     continue
-                if 'OUTSIDE-MODEL' in a:
+                if 'OUTSIDE-MODEL' in a and not self.model_partial:
                     # the harness generated an input the model does not cover: a harness bug, not
                     # a finding about pyais
                     raise Infra('generator produced an input outside the modelled domain: %s' % l[:300])
@@ -122,6 +123,14 @@ def run_check(pid, tier, replay=None):
             print(json.dumps(f, default=str)[:2000])
         return 0 if ok else 1
 
+    # stale replay files of earlier runs of this property would only confuse the reader
+    import glob
+    for old in glob.glob(os.path.join(VERIF, 'replays', pid + '-*.json')):
+        try:
+            os.remove(old)
+        except OSError:
+            pass
+
     # 1. regenerate + build ------------------------------------------------------------------
     info = common.ensure_built()
     broken = []          # names of theorems / correspondences that no longer check
@@ -153,7 +162,7 @@ def run_check(pid, tier, replay=None):
                                    'detail': d['errors'][:2]})
 
     # 3. correspondence + oracle on the implementation ----------------------------------------
-    ctx = Ctx(pid, tier, seed, model_available)
+    ctx = Ctx(pid, tier, seed, model_available, bool(info.get('untranslatable')))
     prop.run(ctx)
     for d in ctx.disagreements[:50]:
         broken.append({'kind': 'correspondence', 'name': 'model.%s vs pyais' % d['command'], 'detail': d})
